@@ -275,29 +275,31 @@ class BondPercolation(NewmanZiff):
 
         # take an initial sample if requested
         samplePoint = 0
-        if self._samplepoints[samplePoint] == 0.0:
+        nSamplePoints = len(self._samplepoints)
+        if samplePoint < nSamplePoints and self._samplepoints[samplePoint] == 0.0:
             self._samples.append(self.sample(self._samplepoints[samplePoint]))
             samplePoint += 1
 
         # percolate the network
         M = len(es)
         for i in range(M):
+            # if we've collected all the samples we want, bail out
+            if samplePoint >= nSamplePoints:
+                break
+
             (n, m) = es[i]
 
             # occupy the edge
             self.occupy(n, m)
             self.eventFired(i, None, self.OCCUPY, (n, m))
 
-            # take a sample if this is a sample point
-            if (i + 1) / M >= self._samplepoints[samplePoint]:
+            # take a sample for every sample point we have now reached (a single
+            # occupation can pass several requested points on a small network)
+            while samplePoint < nSamplePoints and (i + 1) / M >= self._samplepoints[samplePoint]:
                 # we're at the closest probability after the requested sample point,
                 # so build the sample
                 self._samples.append(self.sample(self._samplepoints[samplePoint]))
-
-                # if we've collected all the samples we want, bail out
                 samplePoint += 1
-                if samplePoint > len(self._samplepoints):
-                    break
 
     def do(self, params: Dict[str, Any]) -> List[Dict[str, Any]]:
         '''Perform the percolation process. This passes a permuted
@@ -467,29 +469,31 @@ class SitePercolation(NewmanZiff):
 
         # take an initial sample if requested
         samplePoint = 0
-        if self._samplepoints[samplePoint] == 0.0:
+        nSamplePoints = len(self._samplepoints)
+        if samplePoint < nSamplePoints and self._samplepoints[samplePoint] == 0.0:
             self._samples.append(self.sample(self._samplepoints[samplePoint]))
             samplePoint += 1
 
         # percolate the network
         N = len(ns)
         for i in range(N):
+            # if we've collected all the samples we want, bail out
+            if samplePoint >= nSamplePoints:
+                break
+
             n = ns[i]
 
             # occupy the node
             self.occupy(n)
             self.eventFired(i, None, self.OCCUPY, n)
 
-            # take a sample if this is a sample point
-            if (i + 1) / N >= self._samplepoints[samplePoint]:
+            # take a sample for every sample point we have now reached (a single
+            # occupation can pass several requested points on a small network)
+            while samplePoint < nSamplePoints and (i + 1) / N >= self._samplepoints[samplePoint]:
                 # we're at the closest probability after the requested sample point,
                 # so build the sample
                 self._samples.append(self.sample(self._samplepoints[samplePoint]))
-
-                # if we've collected all the samples we want, bail out
                 samplePoint += 1
-                if samplePoint > len(self._samplepoints):
-                    break
 
     def do(self, params: Dict[str, Any]) -> List[Dict[str, Any]]:
         '''Perform the percolation process. This passes a permuted
